@@ -74,6 +74,15 @@ CHECKS["C17"] = ("model_checking",
     "Bit-equality with the plain definition is decided on exact-arithmetic inputs only (TLA+ has no floats; on the shipped non-dyadic responses a reference would have to be numeric code). Wire output length is checked against the longest channel of the block.",
     "§4 C17")
 
+CHECKS["C15"] = ("model_checking",
+    "Cluster.tla models the best-cluster search (accumulator of votes per Hough bin, remove-best / re-add-previous bookkeeping, nondeterministic tie-breaks) over bags of point values with duplicates; TLC proves for every input of up to 4 (5) points, every vote assignment and linkage relation that removals never miss, the accumulator equals the live points while searching, clusters are connected and large enough, and clusters (+) remainder = input as bags. The same post-conditions are validated by TLC on real cluster_spacepoints runs (clouds, tracks with noise and duplicates, degenerate families) via value ids and a spanning-tree witness of 3 cm linkage, and the partition / >= 2 tracks rules on find_vertices for track sets of size 0..8 with exact ties.",
+    "Trusted: Cluster.tla as the design argument on small bags; witness distances computed by the harness. Implementation bound by post-conditions on sampled inputs.",
+    "§4 C15")
+CHECKS["C14"] = ("exploration",
+    "The oracle is trivial (returns; finite; in range), the difficulty is adversarial generation: MC_Families enumerates the grid of degenerate families (exactly / nearly collinear with perturbations 1e-18..1e-2, chords, repeated points, two values, equal radii, vertical lines, circles through the origin, dyadic grids, helices, clouds) x sizes; each descriptor becomes clusters handed to Track::try_from (hook H3), Hough-found clusters are fitted, clustering runs on large clouds, and find_vertices on sets of 0..8 tracks with exact ties and pitches 0, subnormal, 1e-300, +-1e-17..+-1e2. Trace_Reco admits only the outcomes of the type-state spec and checks finiteness / range flags.",
+    "Exploration: the spec is generator and referee of outcomes, not a numeric oracle; sampled.",
+    "§4 C14")
+
 NOT_APPLICABLE = {
     "C12": "population statistics of a floating-point pipeline against a physical forward model; TLA+/TLC has no reals or floats, so the spec cannot be the oracle",
     "C16": "decisive clause is a floating-point global minimisation over a continuum; only a numeric brute force could referee it, which is a different technique",
